@@ -23,7 +23,7 @@ META = {
               "on the cross-layer paths additionally the convexity instances exp(y) >= exp(x)(1+y-x), log(y)-log(x) <= (y-x)/x and Bernoulli's inequality for pow with equal exponents (solve.tangent_axioms), anchored at the layer-top applications of the forward formulas"],
     "assumptions": ["REAL mode: literals read as exact rationals", "bit-for-bit agreement of the two copies is established as identity of the EUF shadow terms: same uninterpreted operations on the same operands in the same order (no constant folding), on every path"],
 }
-LEDGER = {"quick": 3430, "thorough": 3430}
+LEDGER = {"quick": 3120, "thorough": 3120}
 
 
 def _fns(which):
